@@ -110,7 +110,7 @@ def run(ctx):
         ctx.sample({"base": [core.cond_text((b, a), names) for _, b, a in c["base"]], "weakly": c["weakly"],
                     "answers": {k: (v[1] if v[0] == "ok" else v[:2]) for k, v in res.items()}})
         for f in fs:
-            ctx.failures.append(shrink(f))
+            ctx.fail(f, shrink)
     # large bases
     pairs_files = rel.shipped_pairs(ctx.rng, 12 if quick else 160, max_atoms=30 if quick else 60)
     m, cap = (6, 5) if quick else (20, 20)
